@@ -6,6 +6,7 @@ import (
 	"strings"
 	"testing"
 	"unicode"
+	"unicode/utf8"
 
 	"pault.ag/go/debian/version"
 	"pgregory.net/rapid"
@@ -138,7 +139,7 @@ func genNearMiss(t *rapid.T) NearMiss {
 		rest += "-" + w.Revision
 	}
 	class := rapid.SampledFrom([]string{"nonnumeric-epoch", "negative-epoch", "oversized-epoch", "embedded-whitespace",
-		"nothing-after-colon", "nondigit-first", "bad-char-upstream", "bad-char-revision"}).Draw(t, "class")
+		"nothing-after-colon", "nondigit-first", "bad-char-upstream", "bad-char-revision", "bad-char-around"}).Draw(t, "class")
 	switch class {
 	case "nonnumeric-epoch":
 		e := rapid.SampledFrom([]string{"a", "1a", "a1", "1.0", "", "x", "1~", "0x1", "1e3", "1 ", "٣"}).Draw(t, "e")
@@ -172,6 +173,16 @@ func genNearMiss(t *rapid.T) NearMiss {
 		p := rapid.IntRange(1, len(canon)-1).Draw(t, "p")
 		sp := rapid.SampledFrom([]string{" ", "\t", "\n", "  ", "\r", "\v", "\f"}).Draw(t, "sp")
 		return NearMiss{Text: wrap(canon[:p] + sp + canon[p:]), Class: class, From: canon}
+	case "bad-char-around":
+		// characters outside the alphabet at the two ends, where a reader that is lenient about
+		// quoting or bracketing would take them off: "1.0-1" in quotes, (1.0), <1.0>, =1.0, 1.0;
+		pair := rapid.SampledFrom([][2]string{{"\"", "\""}, {"'", "'"}, {"(", ")"}, {"<", ">"}, {"[", "]"}, {"{", "}"}, {"`", "`"}, {"“", "”"},
+			{"\"", ""}, {"", "\""}, {"=", ""}, {"", ";"}, {"", ","}, {"v", ""}, {"\ufeff", ""}, {"", "\x00"}, {"\\\"", "\\\""}, {"\"\"", "\"\""}, {"= ", ""}, {"", " )"}}).Draw(t, "pair")
+		body := canon
+		if rapid.IntRange(0, 3).Draw(t, "padInside") == 0 {
+			body = " " + body + " "
+		}
+		return NearMiss{Text: wrap(pair[0] + body + pair[1]), Class: class, From: canon}
 	case "nothing-after-colon":
 		e := rapid.SampledFrom([]string{"0", "1", "12", "007"}).Draw(t, "e")
 		return NearMiss{Text: wrap(e + ":"), Class: class, From: canon}
@@ -219,7 +230,7 @@ func genNearMiss(t *rapid.T) NearMiss {
 
 var specC03Reject = Register(&Spec[NearMiss]{
 	Prop: "C03", Name: "reject",
-	Rule: "one edit of a Policy-grammar version that puts it in exactly one of the rejection classes the statement names: non-numeric epoch, negative epoch, epoch > MaxInt64, whitespace embedded inside, nothing after the colon, non-digit first upstream character, a character outside [A-Za-z0-9.+~] (plus ':' '-') in upstream or revision (ASCII punctuation and control bytes, NUL, DEL, any lone byte >= 0x80, any non-space rune from Latin-1/Latin Extended, Greek, Cyrillic, Arabic-Indic digits, general punctuation, CJK, fullwidth forms, emoji). Oracle: Parse, UnmarshalControl and UnmarshalText all return an error, and a fixed valid version parsed right afterwards (also into the variable that just saw the failure) comes out as written. Every case is non-trivial; distinct by text; classes counted separately.",
+	Rule: "one edit of a Policy-grammar version that puts it in exactly one of the rejection classes the statement names: non-numeric epoch, negative epoch, epoch > MaxInt64, whitespace embedded inside, nothing after the colon, non-digit first upstream character, a character outside [A-Za-z0-9.+~] (plus ':' '-') in upstream or revision or around the whole text - quotes, brackets, '=', ';', BOM, NUL at the two ends - (ASCII punctuation and control bytes, NUL, DEL, any lone byte >= 0x80, any non-space rune from Latin-1/Latin Extended, Greek, Cyrillic, Arabic-Indic digits, general punctuation, CJK, fullwidth forms, emoji). Oracle: Parse, UnmarshalControl, UnmarshalText and json.Unmarshal of the text as a JSON string all return an error, and a fixed valid version parsed right afterwards (also into the variable that just saw the failure) comes out as written. Every case is non-trivial; distinct by text; classes counted separately.",
 	Check: func(n NearMiss, r *Recorder) error {
 		r.Case(n.Text, true, "reject:"+n.Class)
 		r.Sample(n)
@@ -233,6 +244,15 @@ var specC03Reject = Register(&Spec[NearMiss]{
 		var v2 version.Version
 		if err := v2.UnmarshalText([]byte(n.Text)); err == nil {
 			return errf("UnmarshalText(%q) accepted a %s string as %+v", n.Text, n.Class, v2)
+		}
+		if utf8.ValidString(n.Text) {
+			// encoding/json (and every other encoding.TextUnmarshaler client) goes through UnmarshalText
+			if js, jerr := json.Marshal(n.Text); jerr == nil {
+				var v3 version.Version
+				if err := json.Unmarshal(js, &v3); err == nil {
+					return errf("json.Unmarshal(%s) into a Version accepted a %s string as %+v", js, n.Class, v3)
+				}
+			}
 		}
 		// nothing of a rejected string stays behind: a valid one right afterwards is what it says
 		want := version.Version{Epoch: 3, Version: "1.2~rc1+dfsg", Revision: "4+b1"}
